@@ -263,4 +263,106 @@ theorem leavesNonneg_step (s : Pdf α) (op : Op α) (hsh : ShapeInv s) (hn : Lea
   | sample r => exact hn
 
 end ring
+section ring
+variable {α : Type} [CommRing α] [LinearOrder α] [IsStrictOrderedRing α]
+
+theorem stepDownOld_eq (c p : Array α) (j : Nat) (x X : α) (h : SumRel c p) (hd : DInv p j x X)
+    (hj : 2 * j < c.size) : stepDownOld c j x = some (stepDown c j x) := by
+  unfold stepDownOld stepDown
+  rw [Array.getElem?_eq_getElem hj]
+  simp only
+  by_cases h1 : 2 * j + 1 < c.size
+  · simp only [h1, dite_true]
+    split <;> rfl
+  · simp only [h1, dite_false]
+    have hz : cell c (2 * j + 1) = 0 := cell_ge _ _ (by omega)
+    have hc : cell c (2 * j) = c[2 * j] := cell_lt _ _ hj
+    have hle : x ≤ c[2 * j] := by
+      have := hd.1
+      rw [h j, hz, hc] at this
+      linarith
+    have : WOps.lt c[2 * j] x = false := by
+      have : ¬ c[2 * j] < x := not_lt.mpr hle
+      simpa [WOps.lt] using this
+    rw [this]; rfl
+
+theorem walkOld_eq : ∀ (rs : List (Array α)) (c : Array α) (n : Nat) (X tot : α), 0 < n →
+    ShapeSizes n (sizes (c :: rs)) → SumChain (c :: rs) → total? (c :: rs) = some tot → 0 ≤ X → X ≤ tot →
+    walkOld (c :: rs) X = some (walk (c :: rs) X)
+  | [], c, n, X, tot, _, _, _, _, _, _ => by simp [walkOld, walk]
+  | p :: rs, c, n, X, tot, hn, hs, hc, ht, h0, hX => by
+    rw [sizes_cons, shapeSizes_cons, sizes_cons, above_cons] at hs
+    obtain ⟨hcs, _, hn1, hp, hpos, hab⟩ := hs
+    have hs' : ShapeSizes ((n + 1) / 2) (sizes (p :: rs)) := by
+      rw [sizes_cons, shapeSizes_cons]; exact ⟨hp, hpos, hab⟩
+    rw [sumChain_cons2] at hc
+    have ht' : total? (p :: rs) = some tot := by
+      simpa [total?, List.getLast?_cons_cons] using ht
+    have ih := walkOld_eq rs p ((n + 1) / 2) X tot hpos hs' hc.2 ht' h0 hX
+    have hd := dinv_walk rs p X tot hc.2 ht' h0 hX (fun _ _ => trivial)
+    have hlt := walk_lt (p :: rs) ((n + 1) / 2) X hpos hs'
+    simp only [walkOld, ih, walk]
+    exact stepDownOld_eq c p _ _ X hc.1 hd (by omega)
+
+/-- in exact arithmetic the descent before fix F2 and the guarded descent agree on every reachable state:
+the guard only matters once rounding has broken `SumInv` -/
+theorem sampleOld_eq_sample (s : Pdf α) (r : α) (hsh : ShapeInv s) (hsum : SumInv s)
+    (hnn : ∀ k, 0 ≤ cell (row0 s) k) (h0 : 0 ≤ r) (h1 : r ≤ 1) : s.sampleOld r = s.sample r := by
+  unfold Pdf.sampleOld Pdf.sample
+  by_cases hn : s.data.size = 0
+  · simp [hn]
+  · rw [if_neg hn, if_neg hn]
+    split
+    · rfl
+    · unfold ShapeInv at hsh
+      unfold SumInv at hsum
+      cases ht : s.tree with
+      | nil => rw [ht, sizes_nil] at hsh; exact absurd hsh hn
+      | cons c rs =>
+        rw [ht] at hsh hsum
+        have hl : row0 s = c := by simp [row0, ht]
+        rw [hl] at hnn
+        have hcs : c.size = s.data.size := by
+          rw [sizes_cons, shapeSizes_cons] at hsh; exact hsh.1
+        have htot := chain_total rs c _ hsh hsum
+        rw [htot]
+        simp only
+        have htn := pre_nonneg c hnn c.size
+        have hX0 : 0 ≤ r * pre c c.size := mul_nonneg h0 htn
+        have hX1 : r * pre c c.size ≤ pre c c.size := by nlinarith
+        have hw := walkOld_eq rs c s.data.size (r * pre c c.size) _ (by omega) hsh hsum htot hX0 hX1
+        have : WScale.mul r (pre c c.size) = r * pre c c.size := rfl
+        rw [this, hw]
+
+end ring
+
+/-- the number of stored elements is the number of live handles -/
+theorem size_counts_live {β : Type} (s : Pdf β) (h : IdxSync s) :
+    s.data.size = ((List.range s.next).filter (fun k => (s.idx k).isSome)).length := by
+  have hnd : s.data.toList.Nodup := by
+    rw [List.nodup_iff_pairwise_ne, List.pairwise_iff_getElem]
+    intro i j hi hj hij e
+    have := h.inj (by simpa using hi) (by simpa using hj) (by simpa using e)
+    omega
+  have hnd2 : ((List.range s.next).filter (fun k => (s.idx k).isSome)).Nodup :=
+    List.Nodup.sublist List.filter_sublist List.nodup_range
+  have hperm : s.data.toList.Perm ((List.range s.next).filter (fun k => (s.idx k).isSome)) := by
+    rw [List.perm_ext_iff_of_nodup hnd hnd2]
+    intro k
+    simp only [Array.mem_toList_iff, List.mem_filter, List.mem_range]
+    constructor
+    · intro hm
+      obtain ⟨i, hi, e⟩ := Array.getElem_of_mem hm
+      have hk := h.fwd i hi
+      rw [e] at hk
+      refine ⟨?_, by simp [hk]⟩
+      rcases Nat.lt_or_ge k s.next with hlt | hge
+      · exact hlt
+      · have := h.fresh k hge; rw [this] at hk; cases hk
+    · intro ⟨_, hl⟩
+      obtain ⟨i, hi⟩ := Option.isSome_iff_exists.mp hl
+      exact Array.mem_of_getElem? (h.bwd k i hi)
+  rw [← Array.length_toList, hperm.length_eq]
+
+
 end OmplModel.Pdf
